@@ -1,1 +1,2 @@
-reg("C20", "c20_lifetime.c", "asan", cflags=["-O1"])
+# asan variant; the library is built with the small glyph table (PIXMAN_VERIF hook) so that creating a cache per transition is cheap
+reg("C20", "c20_lifetime.c", "asan", cflags=["-O1"], defs=["-DPIXMAN_VERIF_GLYPH_HASH_SIZE=8", "-DPIXMAN_VERIF_GLYPH_HIGH_WATER=4", "-DPIXMAN_VERIF_GLYPH_LOW_WATER=2"])
